@@ -537,6 +537,9 @@ func (n *Node) LoseReplies(k int) { atomic.StoreInt64(&n.loseReplies, int64(k)) 
 // RepliesLost counts the replies dropped that way so far.
 func (n *Node) RepliesLost() int64 { return atomic.LoadInt64(&n.repliesLost) }
 
+// Ctx is the node's context (carries the logger the broker code expects).
+func (n *Node) Ctx() context.Context { return n.ctx }
+
 func (n *Node) sentinelID() string { return "sentinel-" + n.Name }
 
 func (n *Node) goRun(f func()) {
